@@ -202,6 +202,11 @@ CHECKS = {
         text="Every generated program must run to completion without an out-of-bounds access, use-after-free, undefined behaviour or a LeakSanitizer report at exit (every expression freed once its last reference is dropped); library exceptions are normal outcomes. Exploration.",
         note="Process-per-program keeps failures attributable (the replay is the program). Uninitialised reads are not observable (no MSan-instrumented libstdc++). The per-area checks (polynomials, matrices, sets, C API, ...) run under the same sanitizers and report memory errors in their own areas.",
         variants=["main"]),
+    "C15": dict(
+        engine="hy", technique="property-based testing (differential against a real C compiler): generated expressions over all 59 node types the C printers accept, emitted by ccode (double and float), c89code and c99code, compiled in batches with gcc and executed on generated inputs; oracle = mpmath value of the expression with a forward-error-scaled tolerance; non-compiling batches are bisected",
+        text="Every emitted C expression, wrapped as double f_k(double x, ...), compiled with gcc -O0 -std=gnu99 and run at four input vectors, must reproduce the mpmath value of the expression within 64*u*amplification (u = 2^-53 or 2^-24); code that gcc rejects although it only uses bound symbols and <math.h> is a violation. Exploration with a coverage gate over the 59 node types.",
+        note="KF-C15-01 (bare integer literals give C integer arithmetic, pinned by test_ccode) is a listed known finding excluded by a type inference over the tree.",
+        variants=["main"]),
 }
 
 NOT_APPLICABLE = {}
